@@ -51,7 +51,7 @@ def gen(tier, rnd):
         case('alice', K, [('alice', K)], nq=2, drop=(i,))
         if i % 2 == 0:
             case('alice', 'wrongkey', [('alice', K)], nq=2, drop=(i,))
-    for _ in range(300 if tier == 'thorough' else 20):
+    for _ in range(3000 if tier == 'thorough' else 20):
         case(rnd.choice(('alice', 'bob', 'eve')), rnd.choice(keys), [('alice', K), ('bob', rnd.choice(keys))], acc=rnd.choice((1, 1, 0)), nq=rnd.randint(0, 4),
              inj=rnd.choice((0, 0, 1, 2)), rel=rnd.choice((0, 0, 50, 7000)), idcb=rnd.choice((1, 1, 0)), drop=sorted(rnd.sample(range(12), rnd.choice((0, 0, 1, 2)))))
     return cases
